@@ -47,7 +47,15 @@ AM2 = {
     ],
     "methods": {"machine": ["g1"]},
 }
-TEMPLATES = {"T1": AM, "T2": AM2}
+AM3 = {  # a non-final state without outgoing transitions (the library only warns) and a final state
+    "states": [{"id": "p", "initial": True}, {"id": "q"}, {"id": "r", "final": True}],
+    "transitions": [
+        {"src": "p", "tgt": "q", "events": ["park"]},
+        {"src": "p", "tgt": "r", "events": ["end"], "unless": ["u1"]},
+    ],
+    "methods": {"machine": ["u1"]},
+}
+TEMPLATES = {"T1": AM, "T2": AM2, "T3": AM3}
 
 
 class World:
@@ -69,7 +77,7 @@ BUDGET = {
     "thorough": {"max_secs": 900, "task_secs": 800, "path_secs": 60},
 }
 BOUNDS = {
-    "quick": "two templates (4 states each; two transitions that differ only in their guard, a transition bound to two events, external self transition, internal "
+    "quick": "three templates (4, 4 and 3 states; one with a non-final state that has no outgoing transition; two transitions that differ only in their guard, a transition bound to two events, external self transition, internal "
     "transitions with and without an action, cond and unless guards, one and two final states, state values 1, 0, '' and a string); the class, and an instance in "
     "every state (reached by writing the state and by sending events); nodes, initial pseudo-node and edge, one edge per external transition with source, target, "
     "events and guards, internal transitions inside the node label and not as edges, double border exactly on final states, highlight exactly on the current state.",
@@ -95,8 +103,12 @@ def run(ctx, params):
 
     am = TEMPLATES[params["template"]]
     with ctx.notracing():
+        import warnings
+
         box = [World()]
-        r = render(am, box, class_name="C18" + params["template"])
+        with warnings.catch_warnings():
+            warnings.simplefilter("ignore")
+            r = render(am, box, class_name="C18" + params["template"])
     ids = [s["id"] for s in am["states"]]
     cur = None
     if params["target"] == "class":
